@@ -1,5 +1,6 @@
 """C17 - each connect() starts from a clean slate."""
 from __future__ import annotations
+import json
 import random
 import runner, coreutil, gen_core
 from coreutil import Scenario, events, reads
@@ -58,12 +59,89 @@ def endings(rng):
     return E
 
 
+def key_chain(item):
+    """worker: `n` consecutive connect() calls on ONE WebSocket object; the Sec-WebSocket-Key of each upgrade request, as a server
+    would read it from the request bytes.  `src` = 'os' (the real os.urandom) or 'ctr' (a counter stream: every byte asked for is new)"""
+    n, src = item
+    import re
+    import lomond.websocket as _websocket
+    from lomond.websocket import WebSocket
+    saved = _websocket.os.urandom
+    ctr = [0]
+
+    def stream(k):
+        import hashlib
+        out = b''
+        while len(out) < k:
+            ctr[0] += 1
+            out += hashlib.sha256(b'key stream %d' % ctr[0]).digest()
+        return out[:k]
+    try:
+        if src == 'ctr':
+            _websocket.os.urandom = stream
+        ws = WebSocket('ws://example.com/chat', proxies={})
+        keys = []
+        for _ in range(n):
+            ws.connect()        # the generator is not advanced: the request is built from the state connect() has just made
+            m = re.search(rb'\r\nSec-WebSocket-Key:[ \t]*([^\r\n]*?)[ \t]*\r\n', bytes(ws.build_request()), re.I)
+            keys.append(m.group(1).decode('latin-1') if m else None)
+        return keys
+    finally:
+        _websocket.os.urandom = saved
+
+
+def explore_persist_touch(res, tier, rng):
+    """reconnect chains produced by persist() in which the application touches the websocket BETWEEN two connections (close(), a send,
+    a look at the flags while it handles BackOff): every connection of the chain must still be the connection the same server behaviour
+    produces without persist() and without the touches (harness/props/c16.py run_world: `via` vs `direct`)"""
+    import props.c16 as c16
+    cases = []
+    for _ in range(25 if tier == 'quick' else 400):
+        case, names = c16.gen_world_case(rng)
+        n = len(case['scs'])
+        case['touch'] = {str(i): rng.choice([['close'], ['close'], ['send'], ['look', 'close'], ['close', 'send']]) for i in range(n) if rng.random() < 0.7}
+        cases.append(case)
+    for case, r in zip(cases, runner.parallel_map('props.c16', 'run_world', cases, chunk=5)):
+        if '__crash__' in r:
+            res.crashes.append(r); continue
+        res.case(('persist-touch', json.dumps(case, sort_keys=True)[-300:]), nontrivial=bool(case['touch'])); res.count('persist_chain_touched_between_connections')
+        for i, (v, d) in enumerate(zip(r['via'], r['direct'])):
+            if v != d:
+                a, b = v.split(' '), d.split(' ')
+                at = next((k for k, (x, y) in enumerate(zip(a, b)) if x != y), min(len(a), len(b)))
+                res.failures.append(dict(cls='stale-state', what='connection %d of a persist() chain whose application touched the websocket between connections (%s) differs from the same history on its own' % (
+                    i + 1, case['touch']), input=dict(persist_touch=case), observed=' '.join(a[at:at + 4])[:400], expected=' '.join(b[at:at + 4])[:400]))
+                break
+
+
+def explore_keys(res, tier):
+    """"begins with a new handshake key": long reconnect chains on one object (what persist() produces over hours); no key of the chain
+    may have been on the wire before.  (A repeat with the real os.urandom has probability < 2^-100.)"""
+    n = 80 if tier == 'quick' else 1500
+    items = [(n, 'os'), (n, 'ctr'), (n // 2, 'os')]
+    for (k, src), keys in zip(items, runner.parallel_map('props.c17', 'key_chain', items, chunk=1)):
+        if isinstance(keys, dict):
+            res.crashes.append(keys); continue
+        res.case(('key-chain', k, src), nontrivial=True); res.count('key_chain_connects', k)
+        seen = {}
+        for i, key in enumerate(keys):
+            if key is None or len(key) != 24:
+                res.failures.append(dict(cls='key-malformed', what='connect #%d of the chain: Sec-WebSocket-Key is %r' % (i + 1, key), input=dict(key_chain=[k, src])))
+                break
+            if key in seen:
+                res.failures.append(dict(cls='key-reused', what='connect #%d on the object sends the Sec-WebSocket-Key of connect #%d again (%s)' % (i + 1, seen[key] + 1, key),
+                                         input=dict(key_chain=[k, src]), observed=key))
+                break
+            seen[key] = i
+
+
 def explore(res, tier, seed, model_ok=True):
+    from world import scenario_line
     rng = random.Random(seed)
     nnext = 6 if tier == 'quick' else 40
     res.rule = ('pairs (previous connection, next connection) on ONE WebSocket object: 30 fixed abnormal endings (abandoned generators finalised only after the next connect() or in the middle of the next connection, at Ready/Text/Ping/Closing/Connected/Poll; mid-header, mid-frame, mid-fragment, mid-UTF-8 sequence, deflate negotiated, while closing, close timeout, server closed, rejected, connect failed, '
                 'request failed, protocol error, abandoned by close/drop/raise/with, ping timeout, timers advanced) + random ones x %d next-connection histories (with timers and reactions); '
-                'oracle: the second connection\'s trace equals the trace of the same history on a fresh object; non-trivial = every pair; distinct by (ending, next line)') % nnext
+                'oracle: the second connection\'s trace equals the trace of the same history on a fresh object; chains of 80 (quick) / 1500 connect() calls on one object: no Sec-WebSocket-Key is sent twice; non-trivial = every pair; distinct by (ending, next line)') % nnext
     nexts = []
     for i in range(nnext):
         b = gen_core.gen_history(rng, n_steps=rng.randint(2, 7), timers=rng.random() < 0.5, p_good=0.95, key_seed=5 + i)
@@ -97,12 +175,14 @@ def explore(res, tier, seed, model_ok=True):
     ]
     nexts = fixed_next + nexts
     chains, meta = [], []
+    nidx = []
     for name, a in endings(rng):
-        for b in nexts:
+        for bi, b in enumerate(nexts):
             a.compress, a.url, a.protocols = b.compress, b.url, b.protocols      # constructor arguments belong to the object, not to a connection
-            chains.append([coreutil.scenario_to_json(a), coreutil.scenario_to_json(b)]); meta.append(name)
+            chains.append([coreutil.scenario_to_json(a), coreutil.scenario_to_json(b)]); meta.append(name); nidx.append(bi)
     # longer chains: A1, A2, B
-    for b in nexts[:3]:
+    for bi, b in enumerate(nexts[:3]):
+        nidx.append(bi)
         es = endings(rng)
         a1, a2 = rng.choice(es)[1], rng.choice(es)[1]
         for a in (a1, a2):
@@ -110,16 +190,13 @@ def explore(res, tier, seed, model_ok=True):
         chains.append([coreutil.scenario_to_json(a1), coreutil.scenario_to_json(a2), coreutil.scenario_to_json(b)]); meta.append('chain3')
     chain_traces = runner.parallel_map('coreutil', 'real_chain', chains, chunk=10)
     fresh = coreutil.run_pairs(nexts, model_ok)
-    fresh_by_line = {}
-    for b, (js, line, real, model) in zip(nexts, fresh):
-        fresh_by_line[line] = (js, real, model)
     coreutil.check_corr(res, fresh)
-    from world import scenario_line
-    for ch, tr, name in zip(chains, chain_traces, meta):
+    for ch, tr, name, bi in zip(chains, chain_traces, meta, nidx):
         if isinstance(tr, dict):
             res.crashes.append(tr); continue
-        bline = scenario_line(coreutil.scenario_from_json(ch[-1]))
-        js, freal, fmodel = fresh_by_line[bline]
+        js, bline, freal, fmodel = fresh[bi]
+        if isinstance(freal, dict):
+            continue
         res.case((name, bline))
         res.count('after_' + name)
         res.count('next_reaches_ready' if 'E:ready' in freal else 'next_without_ready')
@@ -135,6 +212,8 @@ def explore(res, tier, seed, model_ok=True):
         if 'E:connected' in got and key not in got:
             res.failures.append(dict(cls='stale-key', what='request of the new connection does not carry a fresh key', input=dict(previous=ch[:-1], next=ch[-1])))
     explore_reconnect(res, tier, rng, model_ok)
+    explore_keys(res, tier)
+    explore_persist_touch(res, tier, rng)
     res.samples += [dict(previous='mid-fragment', next=scenario_line(nexts[0])[-300:])]
 
 
@@ -248,6 +327,17 @@ def explore_reconnect(res, tier, rng, model_ok):
 
 def replay(rp):
     inp = rp.get('input')
+    if isinstance(inp, dict) and 'persist_touch' in inp:
+        import props.c16 as c16
+        r = c16.run_world(inp['persist_touch'])
+        for i, (v, d) in enumerate(zip(r['via'], r['direct'])):
+            print('connection %d under persist():' % (i + 1), v[-600:]); print('connection %d on its own    :' % (i + 1), d[-600:])
+        return 0
+    if isinstance(inp, dict) and 'key_chain' in inp:
+        keys = key_chain(tuple(inp['key_chain']))
+        rep = [(i + 1, keys.index(k) + 1, k) for i, k in enumerate(keys) if keys.index(k) != i]
+        print('connects: %d; repeated keys (connect, first sent at connect, key): %s' % (len(keys), rep[:5]))
+        return 0
     if isinstance(inp, dict) and 'reconnect' in inp:
         print(real_reconnect(inp['reconnect']))
         return 0
